@@ -5,7 +5,7 @@ import vlib, elfgen
 LEVEL = "proof"
 RULE = ("version models: 0..40 verneed files x 0..20 aux, 0..40 verdefs x 1..5 names, versym arrays mixing 0, 1, defined, needed, "
         "unknown and hidden indexes; contiguous and interleaved/non-contiguous record placement (random gaps, random filler "
-        "bytes); class x 5 specs; through the stand-alone SymbolVersionTable::new and through ElfBytes::symbol_version_table. "
+        "bytes); class x 5 specs; through the stand-alone SymbolVersionTable::new and through ElfBytes::symbol_version_table (the three version sections in every order of the section header table). "
         "Oracle: every symbol index (and indexes beyond the table) against the generator's ground truth + equality with the "
         "model. Non-trivial: a query that returns a requirement or a definition.")
 ASSUMPTIONS = ["from_utf8 environment model for the version strings"]
@@ -91,11 +91,17 @@ def gen(rng, tier):
             e = elfgen.Elf(cl, little)
             e.add(b".text", 1, rand_bytes(rng, 5))
             si = e.add(b".verstr", elfgen.SHT["STRTAB"], strs)
-            e.add(b".gnu.version", elfgen.SHT["GNU_VERSYM"], vs, entsize=2, align=2)
+            # the three version sections in any order of the section header table (the scan must not depend on it)
+            adders = [lambda: e.add(b".gnu.version", elfgen.SHT["GNU_VERSYM"], vs, entsize=2, align=2)]
             if has_needs:
-                e.add(b".gnu.version_r", elfgen.SHT["GNU_VERNEED"], vn, link=si, info=len(needs), align=4)
+                adders.append(lambda: e.add(b".gnu.version_r", elfgen.SHT["GNU_VERNEED"], vn, link=si, info=len(needs), align=4))
             if has_defs:
-                e.add(b".gnu.version_d", elfgen.SHT["GNU_VERDEF"], vd, link=si, info=len(defs), align=4)
+                adders.append(lambda: e.add(b".gnu.version_d", elfgen.SHT["GNU_VERDEF"], vd, link=si, info=len(defs), align=4))
+            rng.shuffle(adders)
+            for k2, ad in enumerate(adders):
+                ad()
+                if rng.random() < 0.3:
+                    e.add(b".pad%d" % k2, 1, rand_bytes(rng, 3))
             data, meta = e.build(rng)
             base = meta["sec_off"][si]
             line = "bytes any %s | symver %s" % (hx(data), " ".join(str(i) for i in idxs))
